@@ -226,6 +226,57 @@ def mutated(draw, max_feats):
     return {"model": base["model"], "text": text, "labels": ["mutation"], "expect": "error-if-invalid", "edit": "mutation"}
 
 
+def enum_atheris(tier, seed):
+    """Coverage-guided auxiliary campaign (vf/fuzz_uvl.py): libFuzzer mutates emitted documents; every input
+    it kept (new coverage) and every artifact (oracle violation inside the target) becomes a case for the
+    normal oracle.  Approximately reproducible (-seed, -runs, fresh corpus); the saved input is the exact unit."""
+    import os
+    import shutil
+    import subprocess
+    import sys
+    import tempfile
+    from hypothesis import HealthCheck, Phase, given, seed as hseed, settings
+    from vf import env
+    if not os.path.isdir(os.path.join(env.VERIF_DIR, ".deps", "atheris")):
+        return []                       # atheris unavailable: the Hypothesis sub-checks still decide C04
+    docs = []
+
+    @hseed(int(seed))
+    @settings(max_examples=24, database=None, deadline=None, phases=[Phase.generate],
+              suppress_health_check=list(HealthCheck))
+    @given(positive(6))
+    def collect(c):
+        docs.append(c["text"])
+    collect()
+    work = tempfile.mkdtemp(prefix="vf-atheris-")
+    try:
+        corpus, art = os.path.join(work, "corpus"), os.path.join(work, "artifacts")
+        os.makedirs(corpus)
+        os.makedirs(art)
+        for i, d in enumerate(docs):
+            with open(os.path.join(corpus, f"seed{i:02d}"), "w", encoding="utf-8", newline="") as fh:
+                fh.write(d)
+        runs = 60000 if tier == "thorough" else 2000
+        environ = dict(os.environ)
+        environ["PYTHONPATH"] = env.VERIF_DIR + os.pathsep + environ.get("PYTHONPATH", "")
+        subprocess.run([sys.executable, "-m", "vf.fuzz_uvl", corpus, art, str(runs), str(int(seed))], env=environ,
+                       cwd=env.VERIF_DIR, capture_output=True, timeout=3600)
+        cases = []
+        for d in (corpus, art):
+            for fn in sorted(os.listdir(d)):
+                with open(os.path.join(d, fn), "rb") as fh:
+                    data = fh.read()
+                try:
+                    text = data.decode("utf-8")
+                except UnicodeDecodeError:
+                    continue
+                cases.append({"model": None, "text": text, "labels": ["atheris"], "expect": "error-if-invalid",
+                              "edit": "atheris"})
+        return cases
+    finally:
+        shutil.rmtree(work, ignore_errors=True)
+
+
 def check(case):
     from flamapy.metamodels.fm_metamodel.transformations import UVLReader
     out = []
@@ -242,9 +293,12 @@ def check(case):
             # building the model from a syntactically valid document
             if isinstance(got, Raised) and got.label.split("@")[0] not in ("FlamaException", "ParsingException"):
                 out.append((f"C04.valid-mutated-document-crashes:{got.label}", got.text))
+            elif not isinstance(got, Raised):
+                # a mutated document may legitimately repeat a feature name (C02/C04 do not claim uniqueness)
+                out += [(k, d) for k, d in rt.wellformed(build.observe(got), "C04") if not k.endswith("duplicate-names")]
             return out
         if not isinstance(got, Raised):
-            out.append(("C04.syntax-error-accepted:mutation", f"raw parser: {(lex_err + par_err)[:2]}"))
+            out.append((f"C04.syntax-error-accepted:{case['edit']}", f"raw parser: {(lex_err + par_err)[:2]}"))
         return out
     if case["expect"] == "error":
         relevant = lex_err if case["edit"] == "illegal-char" else par_err
@@ -311,15 +365,17 @@ def classes(case):
 
 SUBS = [
     Sub("mutations", check, gen=lambda tier: mutated(6), nontrivial=nontrivial, classes=classes,
-        n={"quick": 40, "thorough": 1500}, essential=["negative-kept"]),
+        n={"quick": 30, "thorough": 1500}, essential=["negative-kept"]),
+    Sub("atheris", check, enum=enum_atheris, nontrivial=nontrivial, classes=classes, shards={"quick": 1, "thorough": 1},
+        min_nontrivial=0.0),
     Sub("positive", check, gen=lambda tier: positive(20 if tier == "thorough" else 10), nontrivial=nontrivial,
-        classes=classes, n={"quick": 60, "thorough": 1000},
+        classes=classes, n={"quick": 45, "thorough": 1000},
         essential=["positive-kept", "surface:several-children-under-one-keyword", "surface:quoted-plain-identifier",
                    "surface:redundant-parentheses", "surface:namespace", "surface:include", "surface:imports",
                    "surface:line-comment", "surface:crlf", "surface:abstract-true", "surface:named-group-as-cardinality",
                    "surface:space-indentation", "ctc:arithmetic", "ctc:aggregate", "typed", "fcard"]),
     Sub("negative", check, gen=lambda tier: negative(8), nontrivial=nontrivial, classes=classes,
-        n={"quick": 40, "thorough": 700},
+        n={"quick": 30, "thorough": 700},
         essential=["kept:bracket", "kept:stray-operator", "kept:missing-keyword", "kept:indentation", "kept:illegal-char"]),
 ]
 
